@@ -11,3 +11,4 @@ Check C12_update_missing : forall n es t ms, fits n es -> wf_tag t -> len ms < 1
 Check C12_other_lists_untouched : forall a t (v w : list byte) b t' r', (t' <> t \/ r' <> count t a) -> lookup_value (a ++ (t, w) :: b) t' r' = lookup_value (a ++ (t, v) :: b) t' r'.
 Check C12_malformed : forall data t ms, (forall u, check_data data <> Ok u) -> (exists e, ml_init data t ms = (data, Err e)) /\ (exists e, ml_update data t ms = (data, Err e)) /\ (exists e, ml_reload data t = Err e).
 Check C12_reload_any_bytes : forall data t, match ml_reload data t with | Ok cfgs => Forall wf_extra cfgs | Err _ => True | Panic => False end.
+Check C12_exact_size : forall t ms, wf_tag t -> Forall wf_extra ms -> len ms < 100000000 -> let n := N.to_nat (12 + (4 + 35 * len ms)) in ml_init (zeros n) t ms = (render n [(t, lv_enc ms)], Ok tt) /\ exists e, ml_init (zeros (n - 1)) t ms = (zeros (n - 1), Err e).
